@@ -877,6 +877,9 @@ class CstStatementDeserializer:
         names = _RootNameCollector.collect(node)
         if bound_var is not None:
             names.discard(bound_var)
+        # Names bound inside the expression itself (lambda parameters,
+        # comprehension and walrus targets) are local to it, not external reads.
+        names -= _BlockBindingCollector.collect(small.value)
         if not names <= state.known:
             return Disposition.DROPPED_UNKNOWN_NAMES
 
